@@ -169,6 +169,40 @@ def main():
                 record("nograd-plain-fwd:" + name, "x=%r" % (x0.tolist(),), ok, repr(seen.get("val")))
             except Exception as ex:
                 record("nograd-raised:" + name, "x=%r" % (x0.tolist(),), False, repr(ex))
+    # ---- the same functions in METHOD form on a traced array, and the comparison / truth operators ----
+    METHODS = [("argmax", ()), ("argmin", ()), ("argsort", ()), ("any", ()), ("all", ()), ("nonzero", ()), ("round", ()),
+               ("argmax", (0,)), ("argsort", (-1,)), ("argpartition", (0,)), ("searchsorted", (0.7,)),
+               ("__gt__", (0.0,)), ("__lt__", (0.5,)), ("__ge__", (0.5,)), ("__le__", (0.5,)), ("__eq__", (0.5,)), ("__ne__", (0.5,)),
+               ("__len__", ()), ("__bool__", ())]
+    for mname, margs in METHODS:
+        for rep in range(2):
+            if mname == "__bool__":
+                x0 = onp.array([rng.choice([-1.5, 0.5, 2.5])])
+            elif mname == "searchsorted":
+                x0 = onp.array(sorted(rng.sample([-1.5, -0.5, 0.5, 1.5, 2.5], 3)))
+            else:
+                shape = tuple(rng.choice([2, 3]) for _ in range(rng.randint(1, 2)))
+                x0 = onp.array([rng.choice([-1.5, -0.5, 0.0, 0.5, 1.5, 2.5]) for _ in range(int(onp.prod(shape)))]).reshape(shape)
+            seen = {}
+
+            def fm(x, mname=mname, margs=margs):
+                r = bool(x) if mname == "__bool__" else len(x) if mname == "__len__" else getattr(x, mname)(*margs)
+                seen["boxed"] = has_box(r)
+                seen["val"] = r
+                return anp.sum(x)
+            try:
+                if not hasattr(x0, mname):
+                    continue
+                expected = bool(x0) if mname == "__bool__" else len(x0) if mname == "__len__" else getattr(x0, mname)(*margs)
+                for opname, run_ in (("rev", lambda: grad(fm)(x0)), ("fwd", lambda: make_jvp(fm)(x0)(onp.ones_like(x0))),
+                                     ("rev-rev", lambda: grad(lambda a: anp.sum(grad(lambda b: fm(a * b))(onp.ones_like(x0))))(x0))):
+                    seen.clear()
+                    run_()
+                    ok = (not seen.get("boxed", True)) and eq(seen.get("val"), expected)
+                    record("nograd-method:%s:%s" % (mname, opname), "x=%r args=%r" % (x0.tolist(), margs), ok,
+                           {"boxed": seen.get("boxed"), "val": repr(seen.get("val")), "expected": repr(expected)})
+            except Exception as ex:
+                record("nograd-method-raised:" + mname, "x=%r" % (x0.tolist(),), False, repr(ex))
     # ---- derivative flow is blocked: d/dx sum(x * f(x)) = f(x) ----
     for name in ELEMWISE + ["greater", "less"]:
         for rep in range(3):
